@@ -17,9 +17,23 @@ Execution-mode protocol (DESIGN C12 / D11): autodiff is evaluated as single comp
 exactly 64 cases.  A mismatch is re-judged with the stencil evaluated as single compiled calls.  Batched failure, single
 pass, and a (nearly) repeated principal value (relative gap <= 1e-6) of a tensor handed to the eigen-solver at the centre or
 at a stencil point -> the known finding `eigen_sym33_unit|batched|near-repeated-spectrum`.  A second-derivative mismatch
-that persists as a single call, with correct first derivative, at a centre state with (nearly) repeated principal values
-(gap <= 1e-6) of a model that goes through TensorMath's symmetric-matrix-function derivative rule is reported under the
-ONE key `symmetric_matrix_function_jvp|second-derivative|repeated-principal-values|tangent-mismatch`.  Anything else is an
+that persists as a single call, with correct first derivative, at a centre state with REPEATED principal values (relative
+gap <= 1e-12: exactly equal or equal within rounding) of a model that goes through TensorMath's symmetric-matrix-function
+derivative rule is reported under the ONE key
+`symmetric_matrix_function_jvp|second-derivative|repeated-principal-values|tangent-mismatch`.  The class is the measured one:
+on the unchanged tree jax.jvp(jax.grad(W)) of all six eigen-based models loses accuracy like (3e-17 .. 1e-16)/gap (of the
+modulus scale) because the second derivative differentiates the eigenvectors: <= 1.7e-9 for gaps >= 1e-7 (that is the noise
+of the finite-difference oracle), 5e-9 at 1e-8, 2e-7 at 1e-9, 7e-7 at 1e-10, 4e-6 at 1e-11, 3e-5 at 1e-12, 1e-3 at 1e-13,
+O(1e-2 .. 1) at rounding-level gaps; it crosses the tolerance 1e-4 at about 3e-13.  Gaps above 1e-12 are judged by the
+ordinary oracle under the ordinary keys.  NEARLY repeated principal values are part of the alphabet: probing deformations
+whose decomposed tensor has a prescribed relative gap 1e-5 / 1e-6 / 1e-7, built in the principal frame of the internal state
+(coaxial) and turned by 0.5 rad about the odd axis (internal state turned against the probe inside the plane of the pair),
+near the centre of the elastic domain and beyond yield.  For these probes the stencil is evaluated as single compiled calls
+(the compiled batch evaluates the energy with errors up to 3e-11 M at such tensors, D11) and the second-derivative tolerance
+is 1e-6 instead of 1e-4 (the oracle is accurate to 2e-9 there), so that an off-diagonal divided difference replaced by its
+limit (np.isclose instead of ==, seeded change C10-2: tangent off by 3.5e-4 .. 2e-3 of the modulus scale wherever the stress
+is not isotropic inside the pair plane, J2 'seth hill' after non-proportional plastic flow) is seen with >= 2.5 orders of margin.
+Anything else is an
 ordinary violation keyed by model, mode, order and signature.  One more input class has its own key: J2 'seth hill' is
 built on TensorMath.pow_symm, whose divided difference is documented upstream as inaccurate for nearly degenerate
 eigenvalues; at a centre state with (nearly) repeated principal stretches and a non-coaxial plastic strain this makes
@@ -35,12 +49,15 @@ TITLE = ("jax.grad and jax.jvp(jax.grad) of every material model's energy densit
 LEVEL = "model_checking"
 RULE = ("E-PROD: model option x constants set x state (every state at BFS depth <= 2 of the real update, virgin included) x "
         "deformation (labelled alphabet, incl. below / at / beyond yield, the centre of the elastic domain of the state, "
-        "generic plane-strain and 3-D gradients) x {first derivative: 9 basis directions, second derivative: 45 unordered "
+        "generic plane-strain and 3-D gradients; for the models built on the eigen-solver also probes with NEARLY repeated "
+        "principal values of the decomposed tensor: relative gap {1e-5, 1e-6, 1e-7} x principal frame of the internal state "
+        "{as is, turned by 0.5 rad about the odd axis} x J2: {centre of the elastic domain, 2.5 flow stresses beyond yield}, "
+        "constructed per state on the reference side) x {first derivative: 9 basis directions, second derivative: 45 unordered "
         "direction pairs} x execution mode; one case = one derivative entry of the real autodiff program compared with the "
         "finite-difference reference (case id = the labels). Non-trivial (measured) = non-virgin state, or the reference "
         "yield function is positive at the deformation (actively yielding), or viscous flow occurs over the step, or the "
-        "tensor handed to the eigen-solver has (nearly) repeated principal values (derivative rule on its equal-eigenvalue "
-        "switch).")
+        "tensor handed to the eigen-solver has repeated or nearly repeated principal values (measured relative gap <= 1e-4: "
+        "derivative rule on / next to its equal-eigenvalue switch).")
 ASSUMPTIONS = [
     "oracle: 6th-order central differences + Richardson (h, h/2) of the library's own compute_energy_density; stencil "
     "table and coefficient matrices in mc/ref/material_ref.py (numpy; self-tested on a quadratic form); no closed-form "
@@ -64,8 +81,26 @@ ASSUMPTIONS = [
     "state) of vmap over the 9 directions of jax.jvp(jax.value_and_grad(W))); stencil batches exactly 832 points",
     "in batched mode the forward-mode derivative of the energy value (a by-product of jax.jvp) is compared with the "
     "reverse-mode stress for the record only (tracked, unjudged: the statement names jax.grad and jax.jvp(jax.grad))",
-    "D11 / tangent classification by the measured relative gap (<= 1e-6) of the tensors handed to the eigen-solver: "
-    "C = F^T F, Ce = Fp^-T C Fp^-1 (J2 finite), Ce of every branch (viscoelastic)",
+    "D11 classification by the measured relative gap (<= 1e-6) of the tensors handed to the eigen-solver: "
+    "C = F^T F, Ce = Fp^-T C Fp^-1 (J2 finite), Ce of every branch (viscoelastic), at the centre or at a stencil point; "
+    "classification of the open tangent finding by the measured gap at the CENTRE only, <= 1e-12 (numpy eigvalsh resolves a "
+    "gap to ~1e-16); a centre gap in (1e-12, 1e-4] is 'nearly repeated' and judged by the ordinary oracle",
+    "nearly-repeated probes (reference side, numpy): U = Q diag(sqrt c0, sqrt c1, sqrt c2) Q^T with c1 = c0 + gap max(c); "
+    "Q = principal frame of the internal-state tensor ordered (closest pair, odd axis), optionally turned by 0.5 rad about "
+    "the odd axis. Stateless models: stretches (1.3, 1.3, 0.9) in a frame turned about two axes and (1.02, 1.02, 1.05) along "
+    "the axes. J2 'seth hill': C = U^2 with Seth-Hill strains (pm + a, pm + a, p_odd - 2a), pm = mean of the plastic-strain "
+    "pair, Q from the plastic strain; J2 'large': F = Fe Fp, Fe = U with log stretches (a, a, -2a), Q from Fp Fp^T; "
+    "a = 0.1 / 2.5 flow stresses / (6 mu) ('centre' / 'beyond'; which side of the yield switch the probe and its stencil "
+    "lie on is measured as for every deformation, straddling stencils are excluded and counted). Viscoelastic: F = Fe Fv_1, "
+    "Fe = U with stretches (1.2, 1.2, 0.85), Q from Fv_1 Fv_1^T of the first branch. Whether the internal state is turned "
+    "against the probe INSIDE the plane of the pair is measured (off-diagonal of the state tensor in the probe's eigenframe "
+    "> 1e-6 of its norm; it is not for states with an axisymmetric plastic strain) and counted per class",
+    "nearly-repeated probes use the stencil evaluated as 811 single compiled calls: measured on the unchanged tree the "
+    "single-call energy agrees with a numpy re-evaluation to 1.6e-15 at every stencil point, the compiled batch only to "
+    "3e-13 (gap 1e-5) .. 3e-11 (gap 1e-7) at nearly repeated stencil points (D11), i.e. up to 2e-5 M (and 2e-2 M at gap "
+    "1e-10) in the second difference, sometimes without tripping the Richardson self-check",
+    "a probe whose measured centre gap is not in (1e-8, 1e-4] (cannot happen by construction; counted if it does) is judged "
+    "like an ordinary deformation",
 ]
 TAU1 = 1e-6
 FLOOR1 = 1e-4          # tol1 = TAU1 * (|P_fd|_F + FLOOR1 * M)  -> absolute floor 1e-10 M (fd of an energy with absolute rounding eps*M: eps*M/h ~ 3e-13 M)
@@ -82,11 +117,26 @@ TOLERANCES = {
     "second derivative, per pair (both orderings)": "|T_ad - T_fd| <= 1e-4 max(M, max|T_fd|). Worst observed (distinct "
                                                     "principal values): 4.3e-3 of the tolerance; a wrong implicit-function or "
                                                     "custom-JVP rule changes the tangent by O(1)",
+    "second derivative at the nearly-repeated probes": "|T_ad - T_fd| <= 1e-6 max(M, max|T_fd|), stencil as single compiled "
+        "calls. Worst observed on the unchanged tree (quick, seeds 0-2, all eigen-based models, both modes): 2.6e-3 of this "
+        "tolerance = 2.6e-9 of the scale (J2 seth hill), Richardson-vs-plain 2.7e-3 of it; the seeded np.isclose guard changes "
+        "the J2 seth hill tangent by 3.5e-4 .. 2.1e-3 of the scale (350 .. 2100 tolerances) at every gap 1e-5 .. 1e-12 when the "
+        "stress is not isotropic in the pair plane, and by 1.3 gap elsewhere (J2 large: 1.3e-6 at gap 1e-5)",
+    "accuracy of jax.jvp(jax.grad(W)) versus relative gap (unchanged tree, all six eigen-based models, coaxial and turned "
+    "states, error / max(M, max|T|), single-call stencil)":
+        "gap 1e-2 .. 1e-7: <= 1.7e-9 (oracle noise; against 6th-order differences of jax.grad: <= 5e-10); 1e-8: 5.4e-9; 1e-9: "
+        "1.9e-7; 1e-10: 7.4e-7; 1e-11: 4.4e-6; 1e-12: 3.1e-5; 3e-13: 1.8e-4; 1e-13: 1.1e-3; 1e-14: 4.5e-3; 1e-15: 4.8e-2; "
+        "exactly repeated / rounding: 5e-5 .. 1.0. The finite-difference oracle itself (single-call stencil) stays at <= 1.7e-9 "
+        "with Richardson-vs-plain <= 1.7e-9 at every gap including 0",
     "finite-difference self-check": "|Richardson - plain| <= 0.1 tolerance, else excluded",
     "tangent symmetry (tracked)": "|T - T^T| <= 5.4e-8 of the tolerance at distinct principal values",
     "Mechanics output": "energy density: <= 1e-10 |W| + 1e-12 M against compute_energy_density (worst 9.3e-5 of it); "
                         "stress: same as first derivative (worst 6.4e-4 of it against fd, 6.4e-8 against jax.grad)",
-    "D11 / repeated-principal-value classification": "relative eigenvalue gap <= 1e-6",
+    "D11 classification": "relative eigenvalue gap <= 1e-6 (1 + 1e-6) at the centre or a stencil point (the slack keeps the "
+                          "probes built with gap 1e-6 on one side of the threshold)",
+    "repeated-principal-value classification (open tangent finding)": "relative eigenvalue gap at the centre <= 1e-12; the "
+        "smallest centre gap above 1e-12 of any deformation that is not a probe is tracked (quick seeds 0-2: 1.3e-9), so no "
+        "enumerated input lies in (1e-12, 1e-10) where the library error (<= 3e-5) is within 100x of the ordinary tolerance",
 }
 
 D11_KEY = "eigen_sym33_unit|batched|near-repeated-spectrum"
@@ -152,7 +202,11 @@ def bounds(tier):
             "bfs_depth": 2, "j2_bfs_targets": _j2_actions(tier), "visco_bfs_actions": [list(a) for a in _visco_actions(tier)],
             "first_derivative_directions": 9, "second_derivative_pairs": 45, "stencil_points": 811,
             "stencil_batch": NS, "autodiff_batch": NB, "execution_modes": ["single", "batched"],
-            "d11_gap_threshold": 1e-6}
+            "d11_gap_threshold": 1e-6, "repeated_gap_threshold_of_the_open_tangent_finding": REPEATED_GAP,
+            "nearly_repeated_probes": {"relative_gaps": [1e-5, 1e-6, 1e-7], "frames": ["coax", "rot0.5"],
+                                       "j2_kinds": ["centre", "beyond"], "per_j2_state": 12, "per_viscoelastic_state": 6,
+                                       "per_stateless_eigen_model_and_moduli_set": 6, "measured_gap_window": [1e-8, NEAR_PROBE_GAP],
+                                       "second_derivative_tolerance": TAU2N, "stencil": "811 single compiled calls"}}
 
 
 def _j2_actions(tier):
@@ -369,7 +423,10 @@ def _run_cases(rec, mdl, prog, name, cases, s_pad, dt, p, M, eigen_based, seed):
         near_centre = eigen_based and c.gap_centre <= D11_GAP                      # input class of the (fixed) POW_KEY
         repeated_centre = eigen_based and c.gap_centre <= REPEATED_GAP             # input class of the open TANGENT_KEY
         nearly_centre = eigen_based and REPEATED_GAP < c.gap_centre <= NEAR_PROBE_GAP
-        cal = ("nearly-repeated probe" if c.near_probe else ("repeated" if near else "distinct"))
+        cal = ("nearly-repeated probe" if c.near_probe else ("repeated" if repeated_centre else (
+            "nearly repeated (not a probe)" if nearly_centre else ("distinct, repeated on the stencil" if near else "distinct"))))
+        if nearly_centre and not c.near_probe:
+            rec.track_max("smallest centre gap above 1e-12 of a deformation that is not a probe|1e-12/gap", 1e-12 / c.gap_centre)
         uses_pow = "seth hill" in name
         rS = res["single"]
         for mode in ("single", "batched"):
